@@ -100,7 +100,7 @@ def run(tier):
     for a, c in r.coverage.items():
         cov[a] = cov.get(a, 0) + c
     # P1: chunked-arrival model
-    r2 = vlib.tlc("InputLoop", T["chunk_cfg"], workers=8, coverage=True, timeout=T["tlc_timeout"])
+    r2 = vlib.tlc("InputLoop", T["chunk_cfg"], workers=8, coverage=True, timeout=T["tlc_timeout"], deadlock=True)
     vlib.tlc_must_pass(r2, f"model check {T['chunk_cfg']}")
     vlib.log(f"[tlc] {T['chunk_cfg']}: {r2.distinct} distinct states, {r2.generated} generated, depth {r2.depth}, {r2.wall:.1f}s")
     states += r2.distinct
